@@ -40,7 +40,9 @@ type world struct {
 	wallets                                               []util.Uint160 // deployed Wallet contracts
 	nopay                                                 util.Uint160   // deployed contract without onNEP17Payment
 
-	nonce uint32
+	nonce      uint32
+	notaryFrom uint32 // first block index at which the designated notary node is effective
+	lastFault  string
 
 	// id registries (small deterministic ids used on the op lines)
 	accID  map[util.Uint160]int
@@ -195,6 +197,14 @@ func (w *world) addBlock(primary byte, txs ...*transaction.Transaction) (*block.
 	b.PrimaryIndex = primary
 	w.e.SignBlock(b)
 	return b, w.bc.AddBlock(b)
+}
+
+// notariesAt: the designated notary nodes' accounts as Notary.OnPersist of block idx sees them.
+func (w *world) notariesAt(idx uint32) string {
+	if w.notaryFrom != 0 && idx >= w.notaryFrom {
+		return fmt.Sprint(w.aid(w.notaryKey.GetScriptHash()))
+	}
+	return "-"
 }
 
 func sortedHashes(m map[util.Uint160]*big.Int) []util.Uint160 {
